@@ -1,13 +1,13 @@
 SPECIFICATION MCSpec
 CONSTANTS
-  KeyNames = {"kh", "km", "kt"}
+  KeyNames = {"kh", "km", "kt", "kl"}
   Conns = {"c1"}
   MaxReq = 1
   FAsIs = {}
   Mutants = {}
   MaxLen = 1
   Alpha = "full"
-  OomGate = FALSE
+  OomGates = {FALSE}
   PrintAlpha = FALSE
 INVARIANTS C12_Tokens C12_Zero C12_NoDoubleFree C12_NoNegative C11_OneReply
 CHECK_DEADLOCK TRUE
